@@ -248,4 +248,26 @@ theorem assembleSeries_uses_source {α} (items : List (List Rat × α)) (sbs : L
           simp only [Gen.seriesFirstIndex, Gen.seriesFirstFromSorted, if_true, pyIndex]
           cases order <;> rfl
 
+/-! ## option handling -/
+
+/-- `normaliseOpts` with the source's option handling: the three leading if-statements of `get_volume_positions`, in the source's
+order (`Gen.optionFlags`, `Gen.optionHint` when a hint is given, `Gen.optionTolerances`) -/
+def normaliseOptsSrc (o : Opts) : Except ErrKind (Option Rat × Rat × Rat) := do
+  let _ ← Gen.optionFlags o.sort o.allowDuplicate o.allowMissing
+  let hint ← (match o.hint with
+    | none => pure none
+    | some h => (Gen.optionHint h).map some : Except ErrKind (Option Rat))
+  let (rtol, atol) ← Gen.optionTolerances o.rtol o.atol
+  pure (hint, rtol, atol)
+
+theorem defaultRtol_eq : defaultRtol = 1 / 100 := by decide +kernel
+
+theorem normaliseOpts_uses_source (o : Opts) : normaliseOpts o = normaliseOptsSrc o := by
+  obtain ⟨rtol, atol, sort, miss, dup, hint, conv, rh, enf⟩ := o
+  unfold normaliseOpts normaliseOptsSrc Gen.optionFlags Gen.optionHint Gen.optionTolerances
+  simp only [defaultRtol_eq]
+  cases sort <;> cases dup <;> cases miss <;> cases hint <;> cases rtol <;> cases atol <;>
+    simp [bind, Except.bind, pure, Except.pure, Except.map] <;>
+    (split_ifs <;> simp_all)
+
 end HdVerif.Stack
